@@ -121,6 +121,14 @@ def _read(pk, g, n):
             "known": [bool(g.is_value_known(C(S))) for S in range(2 ** n)]}
 
 
+def _vec(pk, vals):
+    import numpy as np
+    a = np.empty(len(vals), dtype=object if pk.symbolic else float)
+    for i, x in enumerate(vals):
+        a[i] = x
+    return a
+
+
 def _full_game(pk, n, v):
     import numpy as np
     g = pk.game.IncompleteCooperativeGame(n)
@@ -164,11 +172,23 @@ def scenario(pk, params, inp):
         direct.compute_bounds()
         res = {"direct": _read(pk, direct, n)}
         extra = list(params["K"])
-        for tag in ("fwd", "rev", "detour"):
+        for tag in ("fwd", "rev", "detour", "bulk"):
             g = pk.game.IncompleteCooperativeGame(n, comp)
             mini = F.minimal(n)
             g.set_known_values([v[S] for S in mini], [C(S) for S in mini])
             g.compute_bounds()
+            if tag == "bulk":
+                # reach K through the BULK setter on a game that already carries computed bounds
+                if extra:
+                    half = extra[: max(1, len(extra) // 2)]
+                    g.set_values(_vec(pk, [v[S] for S in half]), [C(S) for S in half])
+                    g.compute_bounds()
+                    rest = [S for S in extra if S not in half]
+                    if rest:
+                        g.set_values(_vec(pk, [v[S] for S in rest]), iter([C(S) for S in rest]))
+                        g.compute_bounds()
+                res[tag] = _read(pk, g, n)
+                continue
             order = list(extra) if tag == "fwd" else list(reversed(extra))
             if tag == "detour":
                 rnd.shuffle(order)
@@ -236,7 +256,7 @@ def claims(params, inp, out, lg):
             _eq_tables(lg, out["p"], out["p2"], n, "idempotent")
     if params["kind"] == "order":
         cl = []
-        for tag in ("fwd", "rev", "detour"):
+        for tag in ("fwd", "rev", "detour", "bulk"):
             cl += _eq_tables(lg, out["direct"], out[tag], n, f"order-free-{tag}")
         return cl
     b, a = out["before"], out["after"]
